@@ -108,10 +108,17 @@ def pyStr : JVal → String
   | .str s => s
   | v => pyRepr v
 
+def isWs (c : Char) : Bool :=
+  c == ' ' || c == '\t' || c == '\n' || c == '\r' || c == '\x0b' || c == '\x0c'
+
+/-- `str.strip()` (ASCII whitespace; the generators use no other kind) -/
+def pyStrip (s : String) : String :=
+  String.ofList ((s.toList.dropWhile isWs).reverse.dropWhile isWs).reverse
+
 /-- `f"{obj.get(field)}".strip()`; `none` = `obj.get` raised (an unhashable field name) -/
 def keyPart (f : JVal) (kvs : List (String × JVal)) : Option String :=
   match f with
-  | .str s => some (pyStr ((lookup s kvs).getD .null)).trimAscii.toString
+  | .str s => some (pyStrip (pyStr ((lookup s kvs).getD .null)))
   | .arr _ => none
   | .obj _ => none
   | _ => some "None"
@@ -242,6 +249,28 @@ def setMatch (txs axs : List JVal) : Res :=
   else if subsetBy scalarMatch txs axs && subsetBy (fun a t => scalarMatch t a) axs txs then .ok
   else .differ
 
+/-- the value a target key is compared with: the last-applied one when the key is directed there -/
+def cmpValue (d : Dirs) (k : String) (akvs : List (String × JVal)) (lav : JVal) : Option JVal :=
+  if d.lastApplied.contains k then some lav else lookup k akvs
+
+def laVal (lakvs : List (String × JVal)) (k : String) : JVal := (lookup k lakvs).getD .null
+
+/-- the keyed comparison when the target side is not a keyed collection (`None`) -/
+def keyedNone (fields : List JVal) (cv lav : JVal) : Res :=
+  match listToObject fields cv, listToObject fields lav with
+  | some none, some _ => .ok
+  | some (some _), some _ => .differ
+  | _, _ => .raised
+
+/-- `validate_match(target=dictT, actual=A, last_applied_value=L)` once the three `_list_to_object`
+    calls are done (`T` is a dict here); `k` compares the two dicts -/
+def keyedDispatch (T : Option (List (String × JVal))) (A L : Option (Option (List (String × JVal))))
+    (k : List (String × JVal) → List (String × JVal) → Res) : Res :=
+  match T, A, L with
+  | some _, some (some adict), some l => k adict (l.getD [])
+  | some _, some none, some _ => .differ
+  | _, _, _ => .raised
+
 /-! ## the comparator -/
 
 mutual
@@ -282,7 +311,7 @@ def vmO (d : Dirs) (akvs : List (String × JVal)) (la : JVal) (tkvs : List (Stri
       | .junkRaise => .raised
       | .junkIn => if !d.lastApplied.contains k && (lookup k akvs).isNone then .differ else .raised
       | .val lav =>
-        match (if d.lastApplied.contains k then some lav else lookup k akvs) with
+        match cmpValue d k akvs lav with
         | none => .differ
         | some cv =>
           match fieldsFor k d.asMap with
@@ -290,20 +319,10 @@ def vmO (d : Dirs) (akvs : List (String × JVal)) (la : JVal) (tkvs : List (Stri
             match tv with
             | .arr tms =>
               if allObj tms then
-                match keyedDict fields tms, listToObject fields cv, listToObject fields lav with
-                | some _, some (some adict), some l => vmK fields adict (l.getD []) tms
-                | some _, some none, some _ => .differ
-                | _, _, _ => .raised
-              else
-                match listToObject fields cv, listToObject fields lav with
-                | some none, some _ => .ok
-                | some (some _), some _ => .differ
-                | _, _ => .raised
-            | _ =>
-              match listToObject fields cv, listToObject fields lav with
-              | some none, some _ => .ok
-              | some (some _), some _ => .differ
-              | _, _ => .raised
+                keyedDispatch (keyedDict fields tms) (listToObject fields cv) (listToObject fields lav)
+                  fun adict ldict => vmK fields adict ldict tms
+              else keyedNone fields cv lav
+            | _ => keyedNone fields cv lav
           | none => validateMatch tv cv lav (d.asSet.contains k)).join (vmO d akvs la rest)
 termination_by structural tkvs
 /-- `_validate_list_match`'s loop: the first failing index decides -/
@@ -332,6 +351,35 @@ def vmK (fields : List JVal) (adict ldict : List (String × JVal)) (tms : List J
      | _ => Res.ok).join (vmK fields adict ldict rest)
 termination_by structural tms
 end
+
+/-! ## pre-repair behaviour (kept only to state the two defects on their witnesses) -/
+
+/-- `_validate_set_match` before fixes/F6-typed-set.diff: plain Python `set` equality, where
+    `True == 1` and `False == 0` -/
+def setMatchLegacy (txs axs : List JVal) : Res :=
+  if txs.isEmpty && axs.isEmpty then .ok
+  else if !(txs.all isScalar) || !(axs.all isScalar) then .differ
+  else if subsetBy pyEq txs axs && subsetBy (fun a t => pyEq t a) axs txs then .ok
+  else .differ
+
+/-- `_list_to_object` before fixes/F9-compare-as-map.diff: every falsy value is `None`, anything else
+    is iterated and its members asked for `.get` -/
+def listToObjectLegacy (fields : List JVal) (v : JVal) : Option (Option (List (String × JVal))) :=
+  if !truthy v then some none
+  else match v with
+    | .arr xs => if allObj xs then (keyedDict fields xs).map some else none
+    | _ => none
+
+/-- the first step of the keyed comparison before the repair, for a target list `tv` and a live value
+    `cv`: `some r` when it is already decided, `none` when two dictionaries go on to be compared -/
+def keyedLegacyHead (fields : List JVal) (tv cv : JVal) : Option Res :=
+  match listToObjectLegacy fields tv, listToObjectLegacy fields cv with
+  | none, _ => some .raised
+  | _, none => some .raised
+  | some none, some none => some .ok
+  | some none, some (some _) => some .differ
+  | some (some _), some none => some .differ
+  | some (some _), some (some _) => none
 
 /-! ## the specification -/
 
@@ -383,6 +431,11 @@ def setEqSpec (txs lxs : List JVal) : Bool :=
   txs.all isScalar && lxs.all isScalar &&
     subsetBy scalarEq txs lxs && subsetBy (fun l t => scalarEq t l) lxs txs
 
+def setSpecOf (tv cv : JVal) : Bool :=
+  match tv, cv with
+  | .arr txs, .arr lxs => setEqSpec txs lxs
+  | _, _ => false
+
 mutual
 def meetsB (m : Mode) (t live la : JVal) : Bool :=
   match t with
@@ -404,21 +457,19 @@ def meetsO (m : Mode) (d : Dirs) (lkvs lakvs : List (String × JVal)) (tkvs : Li
     (if isDirective k then true
      else if m == .excl && (k == ownerReferences || d.lastApplied.contains k) then true
      else
-       let lav := (lookup k lakvs).getD .null
-       match (if d.lastApplied.contains k then some lav else lookup k lkvs) with
+       match cmpValue d k lkvs (laVal lakvs k) with
        | none => false
        | some cv =>
          match fieldsFor k d.asMap with
          | some fields =>
            (match tv, cv with
-            | .arr tms, .arr lms => (m == .excl || allObj lms) && meetsK m fields lms (laMembers lav) tms
+            | .arr tms, .arr lms =>
+              (m == .excl || allObj lms) && meetsK m fields lms (laMembers (laVal lakvs k)) tms
             | _, _ => false)
          | none =>
            if d.asSet.contains k && isArr tv then
-             (match tv, cv with
-              | .arr txs, .arr lxs => setEqSpec txs lxs
-              | _, _ => false)
-           else meetsB m tv cv lav) && meetsO m d lkvs lakvs rest
+             setSpecOf tv cv
+           else meetsB m tv cv (laVal lakvs k)) && meetsO m d lkvs lakvs rest
 termination_by structural tkvs
 /-- plain lists agree in length and element-wise -/
 def meetsL (m : Mode) (txs lxs items : List JVal) : Bool :=
